@@ -1,4 +1,5 @@
 import Pyrtma.Proofs.Manager
+import Pyrtma.Proofs.ManagerOrder
 /-!
 # C14 — undeliverable messages are reported, not silently lost
 
@@ -79,6 +80,14 @@ theorem never_a_notice_about_a_notice (cfg : Cfg) (fuel : Nat) (s : State) (g : 
     (hg : guardNotice cfg g.body = false) :
     dataSends (guardNotice cfg) (forward cfg fuel s g).out = dataSends (guardNotice cfg) s.out :=
   (forward_ok cfg (tag_guardNotice cfg) fuel s g hg).2
+
+/-- **In no history at all**: after any sequence of rounds — any frames, readiness sets, socket failures, log level,
+statistics ticks — the event log contains no FAILED_MESSAGE that reports the failed delivery of a FAILED_MESSAGE or of an
+RTMA_LOG* message, on any connection.  (A failure to deliver a failure notice or a log message never produces a further
+notice.) -/
+theorem no_notice_about_a_notice_ever (cfg : Cfg) (rs : List Round) :
+    dataSends (guardNotice cfg) (run cfg rs).out = [] :=
+  run_quiet cfg (tag_guardNotice cfg) (ctl_guardNotice cfg) (fun _ => rfl) rs
 
 /-- the recursion guard is exactly FAILED_MESSAGE and RTMA_LOG … RTMA_LOG_DEBUG -/
 theorem guard_types (cfg : Cfg) (t : Int) :
